@@ -31,8 +31,12 @@ AGGS = ["count", "valid_count", "sum", "mean"]
 def cases(draw, tier, aggs=AGGS, max_nd=None):
     if max_nd is None:
         max_nd = 3 if tier == "quick" else 4
-    spec = draw(Q.cube_specs(max_nd=max_nd, min_nd=0, max_n=40 if tier == "quick" else 60,
-                             tails=((), (), (), (2,), (3,), (1,), (2, 2))))
+    if draw(st.integers(0, 9)) == 0:
+        # a boundary extent (255 .. 65537): the array cube then addresses its cells with uint16 / uint32 strides
+        spec = draw(Q.cube_specs(max_nd=2, min_nd=1, max_n=20, big_ok=True, tails=((), (), (2,))))
+    else:
+        spec = draw(Q.cube_specs(max_nd=max_nd, min_nd=0, max_n=40 if tier == "quick" else 60,
+                                 tails=((), (), (), (2,), (3,), (1,), (2, 2))))
     N = spec["N"]
     agg = draw(st.sampled_from(aggs))
     dyadic = draw(st.integers(0, 4)) != 0
@@ -125,6 +129,10 @@ def check(case, rec):
         rec.note("fact=%s/%s/K=%s%s" % (f["dtype"], f["form"], f["K"], "/rough" if not f["dyadic"] else ""))
     if mixed:
         rec.note("has mixed cell")
+    if any(d.get("big") for d in case["dims"]):
+        rec.note("boundary extent")
+    if case.get("readonly"):
+        rec.note("read-only row-id arrays")
     multi = case["fact"] is not None and (case["fact"]["K"] or 0) >= 2
     if (w is not None or multi) and mixed:
         rec.nontrivial()
